@@ -182,7 +182,8 @@ package postgresql
 //@ func (packet *PacketHandler) GetSimpleQuery() (q string, err error)
 //@   props C12 C14
 //@   safety
-//@   requires 1 <= packet.dataLength && packet.dataLength - 1 <= buflen(packet.descriptionBuf)
+//@   ensures bodyless-query-rejected: packet.dataLength < 1 ==> err != nil
+//@   ensures err == nil ==> len(q) == packet.dataLength - 1
 
 // Bound values: NULL (nil) and empty are different PostgreSQL values and both survive the copy.
 //@ func NewPgBoundValue(data []byte, format base.BoundValueFormat) (v base.BoundValue)
@@ -244,3 +245,50 @@ package postgresql
 //@          step described-as-declared: itercalled(mapEncryptedTypeToOID) && ret(mapEncryptedTypeToOID)[1] ==> parameterDescription.ParameterOIDs[prev(i)] == argof(mapEncryptedTypeToOID)[0] && changed
 //@   at call mapEncryptedTypeToOID : assert arg[0] == ret(ColumnEncryptionSetting.GetDBDataTypeID)[0]
 //@   ensures err == nil
+
+// ---- AcraCensor verdict in the proxy (C05): a rejected statement is not forwarded, not rewritten and leaves no trace
+// in the queue of statements awaiting a database response.
+//@ func (proxy *PgProxy) handleQueryPacket(ctx context.Context, packet *PacketHandler, logger *log.Entry) (censored bool, err error)
+//@   props C05
+//@   noinline *
+//@   requires 4 <= len(packet.descriptionLengthBuf)
+//@   ensures verdict-is-the-censors: censored <==> (called(AcraCensorInterface.HandleQuery) && ret(AcraCensorInterface.HandleQuery)[0] != nil)
+//@   ensures rejected-not-processed: censored ==> err == nil && !called(QueryObserverManager.OnQuery) && !called(PacketHandler.ReplaceQuery)
+//@   ensures censor-always-consulted: err == nil ==> called(AcraCensorInterface.HandleQuery)
+//@   at call AcraCensorInterface.HandleQuery : assert recv == proxy.censor && arg[0] == query
+//@   at call QueryObserverManager.OnQuery : assert ret(AcraCensorInterface.HandleQuery)[0] == nil
+//@   at call PacketHandler.ReplaceQuery : assert recv == packet && ret(AcraCensorInterface.HandleQuery)[0] == nil
+
+//@ func (proxy *PgProxy) handleClientPacket(ctx context.Context, packet *PacketHandler, logger *log.Entry) (censored bool, err error)
+//@   props C05
+//@   noinline *
+//@   requires 4 <= len(packet.descriptionLengthBuf)
+//@   ensures rejected-leaves-no-pending-entry: censored ==> !called(pendingPacketsList.Add)
+//@   ensures verdict-from-query-handler: censored ==> (called(PgProxy.handleQueryPacket) && ret(PgProxy.handleQueryPacket)[0]) || (called(PgProxy.handleBindPacket) && ret(PgProxy.handleBindPacket)[0])
+//@   ensures simple-query-checked: ret(PgProtocolState.HandleClientPacket)[0] == nil && ret(PgProtocolState.LastPacketType)[0] == SimpleQueryPacket && err == nil ==> called(PgProxy.handleQueryPacket) && censored == ret(PgProxy.handleQueryPacket)[0]
+//@   ensures parse-checked: ret(PgProtocolState.HandleClientPacket)[0] == nil && ret(PgProtocolState.LastPacketType)[0] == ParseStatementPacket && err == nil ==> called(PgProxy.handleQueryPacket)
+//@   ensures rejected-parse-not-registered: called(PgProxy.handleQueryPacket) && ret(PgProxy.handleQueryPacket)[0] ==> !called(PgProxy.registerPreparedStatement)
+//@   at call PgProxy.handleQueryPacket : assert arg[1] == packet
+
+// The loop forwards a packet only after an error-free, non-rejecting verdict, and answers a rejected one with an error.
+//@ func (proxy *PgProxy) ProxyClientConnection(ctx context.Context, errCh chan<- base.ProxyError)
+//@   props C05
+//@   noinline *
+//@   loop 0 step forwarded-only-if-accepted: itercalled(PacketHandler.sendPacket) ==> itercalled(PgProxy.handleClientPacket) && !ret(PgProxy.handleClientPacket)[0] && ret(PgProxy.handleClientPacket)[1] == nil
+//@          step rejected-gets-error: itercalled(PgProxy.handleClientPacket) && ret(PgProxy.handleClientPacket)[0] ==> itercalled(PgProxy.sendClientError) && !itercalled(PacketHandler.sendPacket)
+//@   at call PacketHandler.sendPacket : assert recv == ret(NewClientSidePacketHandler)[0] && !ret(PgProxy.handleClientPacket)[0] && ret(PgProxy.handleClientPacket)[1] == nil
+//@   at call PgProxy.handleClientPacket : assert arg[1] == ret(NewClientSidePacketHandler)[0]
+
+// Type invariant of a packet handler: the length buffer has the four bytes of the protocol's length field.
+//@ func newPacketHandlerWithLogger(reader io.Reader, writer *bufio.Writer, logger *logrus.Entry) (p *PacketHandler, err error)
+//@   props C05 C12 C14
+//@   safety
+//@   ensures err == nil && p != nil && len(p.descriptionLengthBuf) == 4 && fresh(p)
+
+//@ func NewClientSidePacketHandler(reader io.Reader, writer *bufio.Writer, logger *logrus.Entry) (p *PacketHandler, err error)
+//@   props C05 C12 C14
+//@   safety
+//@   ensures err == nil && p != nil && len(p.descriptionLengthBuf) == 4
+
+// The 4-byte length buffer of a packet handler is allocated by its constructor and never replaced.
+//@ structural pg-length-buffer-immutable props C05 C12 C14 : field-readonly PacketHandler.descriptionLengthBuf allow newPacketHandlerWithLogger
